@@ -288,7 +288,9 @@ func (l c10) Exec(env *core.Env) *core.Result {
 		if count(verLog, "verify") > 0 {
 			res.Violate("C10/verified-under-skip", key, "the applicable level is skip but a signature was evaluated")
 		}
-		if N > 0 && (err != nil || len(outcomes) != 1 || outcomes[0].VerificationLevel != trustpolicy.LevelSkip) {
+		// (a reference without tag or digest / a malformed one "is an error", and under skip "nothing is resolved":
+		// when both apply the statement does not say which wins - an error is as good as the skip outcome)
+		if badRef := p.W("ref") >= 3 && err != nil; N > 0 && !badRef && (err != nil || len(outcomes) != 1 || outcomes[0].VerificationLevel != trustpolicy.LevelSkip) {
 			res.Violate("C10/skip-not-reported", key, "skip level: err=%v outcomes=%d", err, len(outcomes))
 		}
 		return res
